@@ -30,6 +30,9 @@ def run(ctx):
     w = vlib.run_tlc(ctx, "mc/MC_C09.tla", "mc/MC_C09_prefix.cfg", workers=4, timeout=600, keep_vec=False)
     if "NewestPublished" not in w.raw and "MapAgrees" not in w.raw and "NoDeadlock" not in w.raw:
         raise vlib.ToolError("MC_C09_prefix: the pre-repair protocol no longer violates any invariant - the model lost its teeth")
+    # unbounded: TLAPS proves that with the repaired protocol the document entry is never kept locked across an await and
+    # the server never wedges, for histories of any length and any number of concurrent handlers (proofs/LspProofs.tla)
+    vlib.run_tlapm(ctx, "proofs/LspProofs.tla")
     from checks import testrunstage
     n_tr = testrunstage.run(ctx, "C09")
     ctx.cov["evaluations"] = n + n_tr
